@@ -193,6 +193,131 @@ def _subtree(task):
 
 
 # ---------------------------------------------------------------------------------------------------------
+# deep search with state merging (explicit-state BFS over script prefixes)
+#
+# A state is a script prefix; its canonical form is what the rest of a walk can depend on: the model environment
+# (declared names and their values), the implementation's own tables as the load of the prefix leaves them (_VAR,
+# _PARAMS - read by getattr, a missing table only makes the key coarser), the set of modes so far, the number of
+# operations so far (capped at 3: none / one / two / many) and the kinds of the last two items (what a flag such as
+# "just left a loop" can remember).  Prefixes with the same canonical form are continued from ONE representative, the
+# first found in breadth-first order (so the representative is also a shortest one).  EVERY script that is reached
+# - representative or not - is loaded and compared with the model in full, so merging can only cost coverage of the
+# deeper levels, never raise an alarm, and the evidence reports states, transitions and the frontier per level.
+
+DEEP_LAST = 2      # how many trailing item kinds belong to the canonical state (quick: 1)
+
+
+def _kind(it):
+    if it[0] == "stmt":
+        return "stmt:%s:%s" % (it[1], "bare" if it[2] is None else "args")
+    if it[0] == "for":
+        return "for:%s:%s" % (it[1], it[3][0])
+    return it[0] + (":" + it[2] if it[0] in ("decl", "arr") else "")
+
+
+def _impl_tables():
+    try:
+        from blackbird import auxiliary as aux
+    except Exception:  # noqa
+        return None
+    out = []
+    for n in ("_VAR", "_PARAMS"):
+        t = getattr(aux, n, None)
+        try:
+            out.append(repr(observe.canon(dict(t) if isinstance(t, dict) else list(t) if t is not None else None)))
+        except Exception:  # noqa
+            out.append("?")
+    return tuple(out)
+
+
+def _deep_key(sc):
+    m = denote.Model().run(sc)
+    env = tuple(sorted((k, repr(v)) for k, v in m.env.items()))
+    h = sc["items"]
+    return (env, tuple(sorted(m.modes)), min(len(m.ops), 3), tuple(_kind(i) for i in h[-DEEP_LAST:]), _impl_tables())
+
+
+def deep_events(env):
+    """the core menu plus one statement per argument class that reads a declared variable"""
+    out = core_events(env)
+    if "A" in env and "n" in env:
+        out.append(("stmt", "D", [lang.IDX("A", V("n"))], [("k", B("*", V("n"), N("2")))], [V("n")], "none"))
+    if "x" in env:
+        out.append(("stmt", "D2", [B("**", V("x"), N("2"))], [("k", lang.L(V("x"), N("1")))], [N("1")], "none"))
+    return out
+
+
+def _deep_expand(task):
+    """all successors of one representative prefix: (event index, verdict, key, text hash)"""
+    import hashlib
+    mi, hist = task
+    meta = A.METAS[mi]
+    env = {it[2] for it in hist if it[0] in ("decl", "arr")}
+    out = []
+    for k, ev in enumerate(deep_events(env)):
+        sc = dict(meta, items=hist + [ev])
+        r = check_script(sc)
+        if r == "ood":
+            out.append((k, "ood", None, None))
+            continue
+        tables = _impl_tables()       # read before anything else is loaded
+        text = lang.render(sc)
+        hsh = int.from_bytes(hashlib.blake2b(text.encode(), digest_size=8).digest(), "big")
+        try:
+            key = _deep_key(sc)[:4] + (tables,)
+        except (denote.OutOfDomain, denote.Refused):
+            key = None
+        out.append((k, r, key, hsh))
+    return out
+
+
+def deep_search(ctx, mi, depth, cap):
+    """breadth-first over prefixes with merging; returns (stats dict, violations, per-level list)"""
+    V_ = common.Violations(keep=3)
+    seen = set()
+    frontier = [[]]
+    levels = []
+    st = collections.Counter()
+    hashes = set()
+    capped = False
+    for d in range(1, depth + 1):
+        res = pool.pmap(_deep_expand, [(mi, h) for h in frontier], chunk=1, timeout=3600)
+        nxt = []
+        ntrans = 0
+        for h, r in zip(frontier, res):
+            if r == "TIMEOUT":
+                V_.add("C02/no-outcome", {"text": "deep search: successor set of a prefix", "ast": repr(dict(A.METAS[mi], items=h))}, "timeout")
+                continue
+            env = {it[2] for it in h if it[0] in ("decl", "arr")}
+            evs = deep_events(env)
+            for k, verdict, key, hsh in r:
+                ntrans += 1
+                if verdict == "ood":
+                    st["out_of_domain"] += 1
+                    continue
+                hashes.add(hsh)
+                h2 = h + [evs[k]]
+                if verdict is None:
+                    st["agree"] += 1
+                else:
+                    sc = dict(A.METAS[mi], items=h2)
+                    V_.add(verdict[0] if verdict[0] == "C02/empty-list-keyword" else verdict[0] + ":deep", {"text": lang.render(sc), "ast": repr(sc)}, verdict[1])
+                    continue          # a prefix that already disagrees is not continued: its extensions would repeat the report
+                if key is not None and key not in seen:
+                    seen.add(key)
+                    nxt.append(h2)
+        st["transitions"] += ntrans
+        levels.append({"depth": d, "representatives_expanded": len(frontier), "scripts_checked": ntrans, "new_states": len(nxt)})
+        if cap and len(nxt) > cap:
+            capped = True
+            levels[-1]["cap"] = "frontier of %d states not expanded further (cap %d): depth %d is complete, deeper levels were not started" % (len(nxt), cap, d)
+            break
+        frontier = nxt
+    st["states"] = len(seen) + 1
+    return st, V_, levels, hashes, capped
+
+
+# ---------------------------------------------------------------------------------------------------------
 # grammar-driven statements: every sentence of the rule `statement` up to L tokens, enumerated from the .g4
 
 GTEXT = {"PLUS": "+", "MINUS": "-", "TIMES": "*", "DIVIDE": "/", "PWR": "**", "ASSIGN": "=", "INT": "2", "FLOAT": "0.5", "COMPLEX": "1+2j", "PI": "pi",
@@ -409,6 +534,24 @@ def run(ctx):
                 samples.append(sample)
         bounds.append({"metadata_variants": [A.METAS[m]["name"] for m in metas], "depth": depth, "menu": menu,
                        "menu_size_empty_env": len(evs0), "scripts": stats["evaluations"] - n0})
+    # deep search with state merging (see the comment at deep_search)
+    global DEEP_LAST
+    deep_plan = [(1, 4, order[0])] if ctx.quick else [(2, 4, order[0]), (1, 6, order[0]), (1, 5, order[1 % len(order)])]
+    deep_states = deep_trans = 0
+    for last, depth, mi in deep_plan:
+        DEEP_LAST = last          # module global read by the workers (forked per pmap call, after this assignment)
+        st_, V_, levels, hashes_, capped = deep_search(ctx, mi, depth, 0)
+        stats["evaluations"] += st_["transitions"]
+        stats["agree"] += st_["agree"]
+        stats["out_of_domain"] += st_["out_of_domain"]
+        deep_states += st_["states"]
+        deep_trans += st_["transitions"]
+        distinct.update(hashes_)
+        allv.merge(V_.records())
+        bounds.append({"family": "deep search with state merging: breadth-first over script prefixes, one representative per canonical state "
+                                 "(model environment, implementation tables after the load, mode set, number of operations capped at 3, kinds of the last %d item(s)); "
+                                 "every reached script is loaded and compared with the model" % last,
+                       "metadata_variant": A.METAS[mi]["name"], "depth_completed": levels[-1]["depth"], "states": st_["states"], "transitions": st_["transitions"], "levels": levels})
     # long scripts: every menu event in ONE script, in every rotation of the statement order (state carried across
     # many statements: counters, caches, accumulated modes)
     longs = []
@@ -469,6 +612,7 @@ def run(ctx):
                 "up to the depth listed per phase in `bounds`; every prefix is rendered, loaded and compared with the reference denotation; "
                 "non-trivial = script with >=1 statement or loop; distinct = distinct rendered text (hashed)",
         "samples": samples, "exhaustive": True, "bounds": bounds,
+        "states": deep_states, "transitions": deep_trans,
         "agree": stats["agree"], "out_of_domain": stats["out_of_domain"],
         "distinct_outcomes": allv.classes() + 1,
     }
